@@ -3,7 +3,7 @@ import Dasp.Model.Converter
     theorems of `Dasp/Props/C08.lean` are about — at the native-`Float` instance `floatArith`.
     Core Lean only.
 
-    request  `conv <floor|linear> <f64|i16> <channels> <ctor> <L> <L*channels samples> <op>…`
+    request  `conv <floor|linear> <f64|i16|i32|u32|i64> <channels> <ctor> <L> <L*channels samples> <op>…`
       the source holds the L frames, then equilibrium; the interpolator is primed the way the crate's
       examples do it: `Floor::new(source.next())`, `Linear::new(source.next(), source.next())`.
       `<ctor>`: `p<scale>` scale_playback_hz | `s<scale>` scale_sample_hz | `h<src>:<dst>` from_hz_to_hz
@@ -14,7 +14,7 @@ import Dasp.Model.Converter
     reply    `panic` when the constructor's assertion fails; otherwise one token per op:
              `<is_exhausted before 0|1>/<frame channels, comma separated>/<source pulls so far>` for an output
              (`diverge` when the advance loop ran out of fuel), `-` for a setter, `c<count>/<source pulls so far>` for `u`.
-    f64 values are 16-digit hex bit patterns, i16 decimal. -/
+    f64 values are 16-digit hex bit patterns, integer samples decimal. -/
 namespace Dasp.Driver.Cv
 open Dasp.Conv
 
@@ -36,10 +36,14 @@ def toHex (digits : Nat) (n : Nat) : String :=
 
 def showF64 (x : Float) : String := toHex 16 x.toBits.toNat
 def parseF64 (s : String) : Option Float := (parseHex s 16).map fun n => Float.ofBits n.toUInt64
-def parseI16 (s : String) : Option Int :=
+def parseIntIn (lo hi : Int) (s : String) : Option Int :=
   match s.toInt? with
-  | some v => if -32768 ≤ v ∧ v ≤ 32767 then some v else none
+  | some v => if lo ≤ v ∧ v ≤ hi then some v else none
   | none => none
+def parseI16 : String → Option Int := parseIntIn (-32768) 32767
+def parseI32 : String → Option Int := parseIntIn (-2147483648) 2147483647
+def parseU32 : String → Option Int := parseIntIn 0 4294967295
+def parseI64 : String → Option Int := parseIntIn (-9223372036854775808) 9223372036854775807
 
 def parseAll {β : Type} (f : String → Option β) : List String → Option (List β)
   | [] => some []
@@ -150,6 +154,15 @@ def convLine : List String → String
             | none => "bad-op"
           | "i16" => match parseAll parseI16 samp with
             | some xs => withFormat i16CodecFloat (0 : Int) toString kind ch ctor (chunk ch l xs) ops
+            | none => "bad-op"
+          | "i32" => match parseAll parseI32 samp with
+            | some xs => withFormat i32CodecFloat (0 : Int) toString kind ch ctor (chunk ch l xs) ops
+            | none => "bad-op"
+          | "u32" => match parseAll parseU32 samp with
+            | some xs => withFormat u32CodecFloat (2147483648 : Int) toString kind ch ctor (chunk ch l xs) ops
+            | none => "bad-op"
+          | "i64" => match parseAll parseI64 samp with
+            | some xs => withFormat i64CodecFloat (0 : Int) toString kind ch ctor (chunk ch l xs) ops
             | none => "bad-op"
           | _ => "bad-op"
     | _, _ => "bad-op"
